@@ -25,7 +25,12 @@ def main():
         traceback.print_exc()
         print(f"HARNESS-ERROR property={pid} (import)")
         return 2
-    return core.main(prop, sys.argv[2:])
+    try:
+        return core.main(prop, sys.argv[2:])
+    finally:
+        if core._INFLIGHT_DIR:
+            import shutil
+            shutil.rmtree(core._INFLIGHT_DIR, ignore_errors=True)
 
 
 if __name__ == "__main__":
